@@ -234,6 +234,9 @@ Proof. reflexivity. Qed.
 Lemma pin_schema_name_escaped : gbnf_schema_name_escaped = true.
 Proof. reflexivity. Qed.
 
+Lemma pin_header_one_line : gbnf_header_name_one_line = true.
+Proof. reflexivity. Qed.
+
 Lemma pin_names_escaped : gbnf_field_name_escaped = true /\ gbnf_schema_name_escaped = true.
 Proof. split; reflexivity. Qed.
 
@@ -314,6 +317,55 @@ Proof. vm_compute. repeat split; reflexivity. Qed.
 Example raw_schema_name_without_envelope_was_fine :
   wf_text_code (compile_schema_raw_names (sch_named w_aqbc [fld w_NAME [CReq]]) false) = 0.
 Proof. vm_compute. reflexivity. Qed.
+
+(* ---- repo commit b75eb16: the header comment shows the schema name on one line -------------------------------- *)
+Definition w_lb : str := [97;10;98].                                      (* a LF b *)
+(* a LF b CR LF c CR d VT e FF f FS g GS h RS i NEL j LS k PS l LF LF m LF *)
+Definition w_all_breaks : str :=
+  [97;10;98;13;10;99;13;100;11;101;12;102;28;103;29;104;30;105;133;106;8232;107;8233;108;10;10;109;10].
+
+(* join-of-splitlines, computed: CR LF is ONE boundary, LF CR two; consecutive boundaries give double blanks; a trailing
+   boundary gives no trailing blank; a leading one gives a leading blank *)
+Example one_line_examples :
+  one_line w_lb = [97;32;98] /\ one_line [97;13;10;98] = [97;32;98] /\ one_line [97;10;13;98] = [97;32;32;98]
+  /\ one_line [97;10] = [97] /\ one_line [10;97] = [32;97] /\ one_line [] = [] /\ one_line [10] = [] /\ one_line [10;10] = [32]
+  /\ one_line [97;13] = [97] /\ one_line [13;10] = [] /\ one_line [97;32;98] = [97;32;98]
+  /\ one_line w_all_breaks = [97;32;98;32;99;32;100;32;101;32;102;32;103;32;104;32;105;32;106;32;107;32;108;32;32;109].
+Proof. vm_compute. repeat split; reflexivity. Qed.
+
+Example regress_line_break_name_wf :
+  forallb (fun n => forallb (fun env => wf_text (compile_schema (sch_named n [fld w_NAME [CReq]]) env)
+                                        && safe_schema (sch_named n [fld w_NAME [CReq]]) env
+                                        && wf_text (compile_schema (sch_named n []) env)) [true; false])
+          [w_lb; w_all_breaks; [10]; [13;10;97]; [97;8232]] = true.
+Proof. vm_compute. reflexivity. Qed.
+
+(* THE OLD HEADER TEMPLATE (pre-b75eb16): the generated list with the one-line hole replaced by the raw schema.name *)
+Definition unjoin_part (p : gpart) : gpart :=
+  match p with
+  | PHole h => if str_eqb h h_schema_name_1line then PHole h_schema_name else p
+  | PLit _ => p
+  end.
+Definition raw_header_prog : list (str * list gpart) :=
+  map (fun e : str * list gpart => (fst e, map unjoin_part (snd e))) gbnf_schema_prog.
+
+Lemma raw_header_prog_is_pre_fix_template :
+  filter (fun e : str * list gpart => tpl_has_hole [e] h_schema_name) raw_header_prog
+  = [(g_always, [PLit [35;32;71;66;78;70;32;71;114;97;109;109;97;114;32;102;111;114;32;79;67;84;65;86;69;32;115;99;104;101;109;97;58;32];
+                 PHole h_schema_name])]
+  /\ tpl_has_hole raw_header_prog h_schema_name_1line = false.
+Proof. vm_compute. split; reflexivity. Qed.
+
+(* the old header was ill-formed on a name with a line break (the rest of the name is read as the start of a rule:
+   code 1), with and without envelope; the current templates give code 0 *)
+Theorem raw_header_was_ill_formed :
+  wf_text_code (compile_schema_of raw_header_prog (sch_named w_lb [fld w_NAME [CReq]]) true) = 1 /\
+  wf_text_code (compile_schema_of raw_header_prog (sch_named w_lb [fld w_NAME [CReq]]) false) = 1 /\
+  wf_text_code (compile_schema_of raw_header_prog (sch_named w_all_breaks []) true) = 1 /\
+  wf_text_code (compile_schema (sch_named w_lb [fld w_NAME [CReq]]) true) = 0 /\
+  wf_text_code (compile_schema (sch_named w_lb [fld w_NAME [CReq]]) false) = 0 /\
+  wf_text_code (compile_schema (sch_named w_all_breaks []) true) = 0.
+Proof. vm_compute. repeat split; reflexivity. Qed.
 
 (* the safe class GREW: every schema of the old class (names free of quote and backslash) is in the new one ... *)
 Lemma lit_plain_no_nul s : lit_plain s = true -> no_nul s = true.
